@@ -1,0 +1,15 @@
+//go:build verif
+
+package files
+
+import "bytes"
+
+// VerifResetStdin (build tag verif only) puts the process-wide stdin bookkeeping back into its initial state,
+// so that a harness can run several queries over a replaced os.Stdin in one process.
+func VerifResetStdin() {
+	previewedBufferMutex.Lock()
+	previewedBuffer = &bytes.Buffer{}
+	previewedBufferMutex.Unlock()
+	alreadyOpenedNoPreview = 0
+	concurrentReaders = 0
+}
